@@ -1057,6 +1057,10 @@ class Interp:
             return 'None'
         if is_int_sym(x):
             return SStr([('int', x)])
+        if isinstance(x, ExcVal) or (isinstance(x, SObj) and 'Exception' in x.cls.base_name_closure() and x.cls.find_method('__str__') is None):
+            # the message of an exception is not modelled (S-exc-msg): an unknown text
+            self.exc_msgs = getattr(self, 'exc_msgs', 0) + 1
+            return SStr([('sym', z3.String(f'exc.message.{self.exc_msgs}'))])
         if isinstance(x, (EnumVal, SEnum)):
             m = x.cls.find_method('__str__')
             if m is not None:
@@ -2123,6 +2127,8 @@ class Interp:
             return {k: (self.builtin_copy(x, deep) if deep else x) for k, x in v.items()}
         if isinstance(v, tuple):
             return tuple(self.builtin_copy(x, deep) if deep else x for x in v)
+        if isinstance(v, XList) and not deep:
+            return XList(v.base, v.items, False)
         if isinstance(v, SObj) and not deep:
             o = SObj(v.cls, True)
             o.fields = dict(v.fields)
